@@ -6,14 +6,14 @@ From Amq Require Import Lib.Base Gen.Consts Model.Wire Model.Frames Model.OutBuf
    method, any announced body size up to 2^64 and beyond, any collector state), from any
    state satisfying the invariant WFs - which the state after the handshake does - the
    thread neither panics, nor fails an assertion, nor blocks on one of its own queues
-   (OPanic covers the unwrap / unreachable! / assert! sites and blocking sends), and as
-   long as processing goes on the invariant holds again. *)
+   (OPanic covers the unwrap / unreachable! / assert! sites and blocking sends), and the
+   invariant holds again afterwards whatever the outcome was. *)
 Theorem C07_no_panic : forall fs c o c',
   process_all c fs = (o, c') -> WFs c ->
-  (forall site, o <> OPanic site) /\ (o = OOk -> WFs c').
+  (forall site, o <> OPanic site) /\ WFs c'.
 Proof. exact process_all_WFs. Qed.
 
-Theorem C07_init : forall mx bound, WFs (init_core mx bound).
+Theorem C07_init : forall mx bound, mx <= 65535 -> WFs (init_core mx bound).
 Proof. exact WFs_init. Qed.
 
 (* Never mis-delivered: for EVERY sequence of content frames on a channel, what the
@@ -72,8 +72,8 @@ Proof. vm_compute. repeat split. Qed.
 
 Check C07_no_panic : forall fs c o c',
   process_all c fs = (o, c') -> WFs c ->
-  (forall site, o <> OPanic site) /\ (o = OOk -> WFs c').
-Check C07_init : forall mx bound, WFs (init_core mx bound).
+  (forall site, o <> OPanic site) /\ WFs c'.
+Check C07_init : forall mx bound, mx <= 65535 -> WFs (init_core mx bound).
 Check C07_sound : forall ch evs st rst,
   alookup ch rst = Some (rs_of st) ->
   map (fun '(k, props, body) => finish ch k props body) (fst (crun st evs))
